@@ -113,6 +113,19 @@ class SymSeq(Val):
         return f"SymSeq[{self.kind}]({self.t})"
 
 
+class SymList(SymSeq):
+    """A list of symbolic length created on the current path (list(x), a havoc'ed loop variable): it may be mutated in
+    place (pop(0), append, extend, +=) by replacing its term.  Inputs are plain SymSeq and stay immutable, so no state
+    can leak between explored paths (every path re-executes from the start and re-creates its SymLists)."""
+    __slots__ = ()
+
+    def __init__(self, t):
+        SymSeq.__init__(self, t, "list")
+
+    def __repr__(self):
+        return f"SymList({self.t})"
+
+
 class SymMap(Val):
     """Insertion-ordered mapping with symbolic number of entries: parallel sequences."""
     __slots__ = ("keys", "vals", "kind")
